@@ -234,10 +234,10 @@ func rqIssue(ctl *SourceControl, c rqCase, dir string, nsamp int) error {
 		b := true
 		return ctl.StopTriggerCoupling(&b, &ok)
 	case "grouptrigger":
-		g := map[string]map[int][]int{"valid": {0: {1}}, "src-toolarge": {5: {1}}, "rx-toolarge": {0: {7}}, "negative": {-1: {0}}, "rx-negative": {0: {-3}}, "self": {1: {1}}, "empty": {}}[c.Arg]
+		g := map[string]map[int][]int{"valid": {0: {1}}, "src-toolarge": {5: {1}}, "rx-toolarge": {0: {7}}, "src-eq-nchan": {2: {1}}, "rx-eq-nchan": {0: {2}}, "negative": {-1: {0}}, "rx-negative": {0: {-3}}, "self": {1: {1}}, "empty": {}}[c.Arg]
 		return ctl.AddGroupTriggerCoupling(GroupTriggerState{Connections: g}, &ok)
 	case "grouptrigger-del":
-		g := map[string]map[int][]int{"valid": {0: {1}}, "absent": {1: {0}}, "src-toolarge": {9: {0}}, "negative": {-2: {-2}}}[c.Arg]
+		g := map[string]map[int][]int{"valid": {0: {1}}, "absent": {1: {0}}, "src-toolarge": {9: {0}}, "src-eq-nchan": {2: {0}}, "rx-eq-nchan": {0: {2}}, "negative": {-2: {-2}}}[c.Arg]
 		return ctl.DeleteGroupTriggerCoupling(&GroupTriggerState{Connections: g}, &ok)
 	case "mix":
 		mfo := map[string]MixFractionObject{"valid": {ChannelIndices: []int{1}, MixFractions: []float64{0.5}}, "mismatched": {ChannelIndices: []int{1, 3}, MixFractions: []float64{0.5}},
@@ -276,8 +276,8 @@ func rqCases() []rqCase {
 	add("comment", map[string]string{"valid": "ok", "empty": "err"})
 	add("coupling", map[string]string{"off": "ok", "on": "err", "fb2err": "err"})
 	add("stopcoupling", map[string]string{"x": "ok"})
-	add("grouptrigger", map[string]string{"valid": "ok", "src-toolarge": "err", "rx-toolarge": "err", "negative": "err", "rx-negative": "err", "self": "any", "empty": "any"})
-	add("grouptrigger-del", map[string]string{"valid": "ok", "absent": "any", "src-toolarge": "any", "negative": "any"})
+	add("grouptrigger", map[string]string{"valid": "ok", "src-toolarge": "err", "rx-toolarge": "err", "src-eq-nchan": "err", "rx-eq-nchan": "err", "negative": "err", "rx-negative": "err", "self": "any", "empty": "any"})
+	add("grouptrigger-del", map[string]string{"valid": "ok", "absent": "any", "src-toolarge": "any", "src-eq-nchan": "any", "rx-eq-nchan": "any", "negative": "any"})
 	add("mix", map[string]string{"valid": "err", "mismatched": "err", "empty": "err"})
 	add("rawblock", map[string]string{"valid": "ok", "zero": "any", "negative": "any", "large": "ok"})
 	return out
@@ -302,6 +302,23 @@ func rqInstallRecover() {
 	}
 }
 func rqSetCurrent(r *rqRig) { rqCur.mu.Lock(); rqCur.rig = r; rqCur.mu.Unlock() }
+
+// rqVPoint learns which goroutine is the core loop from the hook at the top of its select (before any block has been
+// processed): a request handler that runs on another goroutine is "foreign" from the first request on.
+func rqVPoint(name string) {
+	if name != "CoreLoop.select" {
+		return
+	}
+	rqCur.mu.Lock()
+	r := rqCur.rig
+	rqCur.mu.Unlock()
+	if r != nil {
+		g := lcGid()
+		r.mon.mu.Lock()
+		r.mon.coreGid = g
+		r.mon.mu.Unlock()
+	}
+}
 
 type rqRig struct {
 	ctl    *SourceControl
@@ -506,6 +523,7 @@ func TestVerifRequests(t *testing.T) {
 	cases := rqCases()
 	id := 0
 	rqInstallRecover() // once, before any goroutine of the code under test exists
+	VPoint = rqVPoint
 	// one rig per (timing, case): a wedged core loop must not spoil the following cases
 	for _, timing := range []string{"running", "never", "stopped", "selfterm"} {
 		for _, c := range cases {
@@ -531,6 +549,9 @@ func TestVerifRequests(t *testing.T) {
 				}
 				if err := rig.start(); err != nil {
 					t.Fatal(err)
+				}
+				for k := 0; k < 100 && atomic.LoadInt64(&rig.mon.nblocks) < 1; k++ {
+					time.Sleep(5 * time.Millisecond) // data are flowing when the request arrives
 				}
 				// preconditions of some cases
 				switch {
